@@ -295,7 +295,8 @@ fn long_case(c: &Case, dev: usize) -> (u64, u64, Option<(String, String)>) {
             }
         },
         dev,
-        4000,
+        // (beyond ~2000 cases one selection costs ~1 ms: deviations within the first 40 words only)
+        if c.cases > 2100 { 40 } else { 4000 },
         400_000,
     );
     if bad.is_none() {
@@ -419,7 +420,7 @@ pub fn run(run: &mut Run) {
     run.note("long.streams", json!(long_streams));
     run.bound("law.max_cases_structured", json!(law_c_max));
     run.bound("long.case_counts", json!(if quick { "9..=70, 127..=129, 255..=258, 511..=515, 1023..=1026" } else { "9..=258, 511..=515, 1023..=1026, 2047..=2049, 4097, 65535..=65537" }));
-    run.bound("long.streams", json!("all streams with at most 1 non-default word (2 up to 40 cases, thorough) over the extended grid Ext(4), horizon 4000 words"));
+    run.bound("long.streams", json!("all streams with at most 1 non-default word (2 up to 40 cases, thorough) over the extended grid Ext(4), horizon 4000 words (40 beyond 2100 cases)"));
     run.states = (cases.len() + long.len()) as u64;
     run.traces_validated = run.evaluations;
     run.distinct_nontrivial = nontrivial;
